@@ -79,6 +79,9 @@ func SafeExec(w World, sc *Scenario, env *Env) (v *Violation) {
 	ticker := time.NewTicker(2 * time.Second)
 	defer ticker.Stop()
 	last, idle := atomic.LoadUint64(&globalTick), 0
+	// goroutines the library started itself and waits for (a table filled by four workers)
+	// are progress too, for at most ten times the limit
+	lastChild, childOnly := libraryGoroutineTicks(), 0
 	for {
 		select {
 		case v := <-done:
@@ -86,7 +89,12 @@ func SafeExec(w World, sc *Scenario, env *Env) (v *Violation) {
 		case <-ticker.C:
 			cur := atomic.LoadUint64(&globalTick)
 			if cur != last {
-				last, idle = cur, 0
+				last, idle, childOnly = cur, 0, 0
+				continue
+			}
+			if ct := libraryGoroutineTicks(); ct != lastChild && childOnly < 10*limit {
+				lastChild, idle = ct, 0
+				childOnly++
 				continue
 			}
 			idle++
